@@ -111,7 +111,9 @@ def gen_feature(rng, i, fam, allow_extras):
     if rng.random() < 0.35:
       f["default"] = float(rng.choice([-5.0, kps[0] - 1, kps[0], kps[-1], (kps[0] + kps[1]) / 2]))
     mono_dir = _dir(f["mono"])
-    if mono_dir == 0 and rng.random() < 0.25:
+    # the flag only matters for an unconstrained feature, but it is legal (and merely redundant) together with a
+    # monotonicity: a builder that lets it override the configured direction must show up
+    if rng.random() < (0.25 if mono_dir == 0 else 0.3):
       f["always"] = True
     if rng.random() < 0.15 and nk >= 3:
       f["learned"] = True
